@@ -22,7 +22,7 @@ EXPLANATION = (
     'requester emits CANCEL the local producer is cancelled on that path; (g) one FIFO per stream: when requests can '
     'be diverted to the lease hold queue, no other frame of a requester reaches the send queue without passing the '
     'same diversion. Not decided: legality over all histories (a trace property).')
-EXPLANATION_ADDED = ('(h) nothing after the terminal frame: the request-response callback and the Rx adapters (done marking, cancel only when not done, request sent inside the cancellable task); MAX_REQUEST_N is 2^31-1.')
+EXPLANATION_ADDED = ('(h) nothing after the terminal frame: the request-response callback and the Rx adapters (done marking, cancel only when not done, request sent inside the cancellable task); MAX_REQUEST_N is 2^31-1; (i) none of the subscribers the library itself provides (awaitable collector, Rx adapters, helper subscribers) calls cancel() or request() on its subscription while it is handed the element that carries COMPLETE.')
 EXPLANATION = EXPLANATION.replace(' Not decided', ' ' + EXPLANATION_ADDED + ' Not decided', 1) \
     if ' Not decided' in EXPLANATION else EXPLANATION + ' ' + EXPLANATION_ADDED
 ASSUMPTIONS = COMMON_ASSUMPTIONS
@@ -392,5 +392,43 @@ def rule_i(ctx):
     c20d(ctx)
 
 
+def rule_j(ctx):
+    """The library's own subscribers (the awaitable collector, the Rx adapters, the handlers' helper subscribers) do
+    not act on the subscription while they are being handed the element that carries COMPLETE: a cancel() or
+    request() there puts a CANCEL / REQUEST_N on a stream the peer has just completed."""
+    from ..interp import const
+    from ..effects import strip_epoch
+    rep = ctx.report
+    repo = ctx.repo
+    sub = repo.cls('reactivestreams.subscriber:Subscriber')
+    n = 0
+    for k in sorted(repo.concrete_subclasses(sub, include_self=False), key=lambda c: c.qualname):
+        if not k.qualname.startswith('rsocket'):
+            continue
+        f = k.lookup('on_next')
+        if f is None or f.cls is sub:
+            continue
+        params = f.params()
+        flag = [p for p in params[2:] if 'complete' in p]
+        if not flag:
+            continue
+        n += 1
+        ps = ctx.paths(f, k, args={flag[0]: const(True)}, inline_depth=2)
+        bad = None
+        for p in ps:
+            for e in p.events:
+                if e.kind == 'call' and e.data.get('name') in ('cancel', 'request') and e.data.get('recv') is not None:
+                    r = fmt_term(strip_epoch(e.data['recv'].term))
+                    if 'subscription' in r.lower():
+                        bad = (e.data['name'], r, e.node.lineno)
+        rep.add('C08.i', '%s.on_next / nothing asked of the subscription with the completing element' % k.name, f,
+                bad is None,
+                'with %s true no path calls cancel() or request() on the subscription (%d paths)' % (flag[0], len(ps))
+                if bad is None else
+                '%s.%s() is called (line %d) while the element carrying COMPLETE is delivered: a %s frame follows the '
+                "peer's COMPLETE" % (bad[1], bad[0], bad[2], 'CANCEL' if bad[0] == 'cancel' else 'REQUEST_N'))
+    rep.require('C08.i', 'library subscribers with a completion flag', n, 8)
+
+
 RULES = [('C08.a', rule_a), ('C08.b', rule_b), ('C08.c', rule_c), ('C08.d', rule_d), ('C08.e', rule_e),
-         ('C08.f', rule_f), ('C08.g', rule_g), ('C05.a', rule_order), ('C13.a+C16.b', rule_h), ('C09.a+C20.d', rule_i)]
+         ('C08.f', rule_f), ('C08.g', rule_g), ('C05.a', rule_order), ('C13.a+C16.b', rule_h), ('C09.a+C20.d', rule_i), ('C08.i', rule_j)]
